@@ -433,19 +433,44 @@ def run(ctx):
                                    ('|+++> measured in (ZII, IZI, IIZ)', lambda: pc.stabilizer_state('XII', 'IXI', 'IIX'), ['ZII', 'IZI', 'IIZ'], 8),
                                    ('maximally mixed pair measured in (ZI, IZ)', lambda: pc.maximally_mixed_state(2), ['ZI', 'IZ'], 4),
                                    ('maximally mixed pair measured in (XX)', lambda: pc.maximally_mixed_state(2), ['XX'], 2),
+                                   ('maximally mixed qubit measured in (Z)', lambda: pc.maximally_mixed_state(1), ['Z'], 2),
+                                   ('maximally mixed triple measured in (IIZ)', lambda: pc.maximally_mixed_state(3), ['IIZ'], 2),
+                                   ('maximally mixed triple measured in (IIZ, ZII, IZI)', lambda: pc.maximally_mixed_state(3), ['IIZ', 'ZII', 'IZI'], 8),
                                    ('stabilizer_state(ZZ) measured in (XX)', lambda: pc.stabilizer_state('ZZ'), ['XX'], 2),
                                    ('stabilizer_state(ZZI, IZZ) measured in (ZII)', lambda: pc.stabilizer_state('ZZI', 'IZZ'), ['ZII'], 2)):
         hist = {}
+        follow = 0
         for _ in range(Tj):
             st = mk()
             out, lp = st.measure(pc.paulis(*obs_))
             k_ = tuple(int(v) for v in out)
             hist[k_] = hist.get(k_, 0) + 1
+            if _ < 200:          # the state follows the coin: the same measurement again returns the same readout with certainty
+                out2, lp2 = st.measure(pc.paulis(*obs_))
+                if tuple(int(v) for v in out2) != k_ or float(lp2) != 0.0:
+                    follow += 1
+        if follow:
+            ctx.fail('stabilizer_measure', 'the state does not follow the coin: %s, repeating the measurement right away gave another readout or a non-zero log-probability in %d of 200 runs'
+                     % (name_, follow), dict(case=name_))
         ctx.count('stat:joint-coins')
         ctx.case(('joint-coins', name_), True, sample=dict(op='joint outcome distribution', case=name_, cells=cells, histogram={str(k): v for k, v in hist.items()}))
         if len(hist) != cells or any(abs(v - Tj / cells) > hoeff(Tj, cells) for v in hist.values()):
             ctx.fail('stabilizer_measure', 'undetermined outcomes of one call are not independent fair coins: %s gives %s over %d runs (every one of the %d readouts has Born probability 1/%d)'
                      % (name_, {''.join(map(str, k)): v for k, v in sorted(hist.items())}, Tj, cells, cells), dict(case=name_, T=Tj))
+    # three qubits (the exact enumerations stop at N = 2): the image of every generator is uniform over the 63 non-identity strings
+    T3 = 63 * 40
+    tallies = [dict() for _k in range(6)]
+    for _ in range(T3):
+        gs3 = U.random_clifford(3)
+        for k_ in range(6):
+            key = tuple(int(v) for v in gs3[k_])
+            tallies[k_][key] = tallies[k_].get(key, 0) + 1
+    x_ = math.log(1e9)
+    for k_, tl in enumerate(tallies):
+        chi3 = sum((v - T3 / 63) ** 2 / (T3 / 63) for v in tl.values()) + (63 - len(tl)) * (T3 / 63)
+        ctx.count('stat:N3-rows')
+        if len(tl) > 63 or chi3 > 62 + 2 * math.sqrt(62 * x_) + 2 * x_:
+            ctx.fail('random_clifford', 'N=3: the image of generator %d is not uniform over the 63 non-identity strings (%d strings seen in %d draws, chi2 %.1f)' % (k_, len(tl), T3, chi3), dict(T=T3, row=k_)); break
     gate = CI.CliffordGate(0, 1)
     seen = set()
     for _ in range(64):
